@@ -16,6 +16,7 @@ Core Lean only.  Two parts.
   | provenance                                | reads and advances                         |
   |-------------------------------------------|--------------------------------------------|
   | `fromSeedParam` / `ownGenerator` / `constant` | only the executing component's own state |
+  | `entropyOnly`                             | its own state, but only a part of the seed (not *seeded*) |
   | `global`                                  | the global generator state                 |
   | `fresh`                                   | the OS entropy stream                      |
   | `unclassified`                            | (adversarially) global state and entropy   |
@@ -48,6 +49,8 @@ inductive Prov
   | global                          -- NumPy's / Python's process-wide generator
   | fresh                           -- no seed argument / library default: OS entropy
   | constant                        -- literal seed, or a deterministic sequence (`Sobol(scramble=False)`)
+  | entropyOnly (path : String)     -- derived from the seed, but only through `.entropy` (or only `.spawn_key`)
+                                    -- of a SeedSequence: siblings spawned from one parent collapse (see `SeedSeq`)
   | unclassified                    -- the translator could not classify the call
 deriving DecidableEq, Repr
 
@@ -65,7 +68,7 @@ deriving DecidableEq, Repr
 def Site.seeded (s : Site) : Bool :=
   match s.prov with
   | .fromSeedParam _ | .ownGenerator _ | .constant => true
-  | .global | .fresh | .unclassified => false
+  | .entropyOnly _ | .global | .fresh | .unclassified => false
 
 /-- a call that receives seed material derived from a spawn -/
 structure Consumer where
@@ -102,13 +105,31 @@ deriving DecidableEq, Repr
 
 def Prov.source : Prov → Source
   | .fromSeedParam _ | .ownGenerator _ | .constant => .own
+  | .entropyOnly _ => .own   -- reproducible and non-interfering, but it does not honour the whole seed
   | .global => .global
   | .fresh => .entropy
   | .unclassified => .unknown
 
-theorem Site.seeded_iff_own (s : Site) : s.seeded = true ↔ s.prov.source = .own := by
+theorem Site.own_of_seeded (s : Site) (h : s.seeded = true) : s.prov.source = .own := by
   cases s with
-  | mk f l c sc k a p => cases p <;> simp [Site.seeded, Prov.source]
+  | mk f l c sc k a p => cases p <;> simp_all [Site.seeded, Prov.source]
+
+/-! ### Why `entropyOnly` is not seeded: a SeedSequence is entropy *and* spawn key -/
+
+/-- `numpy.random.SeedSequence`: the user's entropy and the path of child indices it was spawned along -/
+structure SeedSeq where
+  entropy : Nat
+  key     : List Nat
+deriving DecidableEq, Repr
+
+/-- `s.spawn(n)[i]` -/
+def SeedSeq.child (s : SeedSeq) (i : Nat) : SeedSeq := ⟨s.entropy, s.key ++ [i]⟩
+
+/-- `SeedSequence(s.entropy)`: what an `entropyOnly` site builds -/
+def SeedSeq.fromEntropy (s : SeedSeq) : SeedSeq := ⟨s.entropy, []⟩
+
+/-- `SeedSequence(s.entropy, spawn_key=s.spawn_key)`: a faithful copy -/
+def SeedSeq.copy (s : SeedSeq) : SeedSeq := ⟨s.entropy, s.key⟩
 
 /-- pointwise update of a finite map -/
 def upd (f : Nat → Nat) (k v : Nat) : Nat → Nat := fun i => if i = k then v else f i
